@@ -99,7 +99,19 @@ fn option_list(rng: &mut Rng, level: Level) -> String {
             2 => *rng.pick(&VARIANT_OPTS),
             _ => *rng.pick(&UNKNOWN_OPTS),
         };
-        items.push(it.to_string());
+        // the option's name spelled as a longer path now and then: a leading `::`, a segment in front
+        // of it or behind it, a raw identifier
+        let it = match rng.below(16) {
+            0 => format!("::{it}"),
+            1 => format!("x::{it}"),
+            2 => match it.find(|c: char| !(c.is_alphanumeric() || c == '_')) {
+                Some(i) => format!("{}::y{}", &it[..i], &it[i..]),
+                None => format!("{it}::y"),
+            },
+            3 => format!("r#{it}"),
+            _ => it.to_string(),
+        };
+        items.push(it);
     }
     let mut s = items.join(", ");
     if !items.is_empty() && rng.chance(1, 6) {
